@@ -272,23 +272,32 @@ Section Canon.
   Definition ty_of (ev : aval) : atype :=
     match ev with
     | VList _ => TyStringList
-    | VStr s => match s with 34%N :: _ => TyString | 58%N :: _ => TyTag | _ => TyNumber end
+    | VStr s => match s with
+                | 34%N :: _ => TyString
+                | 58%N :: _ => TyTag
+                | c :: _ => if is_digit c then TyNumber else TyString
+                | [] => TyString
+                end
     | _ => TyString
     end.
 
-  Lemma ty_of_digit : forall c t, is_digit c = true -> ty_of (VStr (c :: t)) = TyNumber.
+  Lemma ty_of_cons : forall c t,
+    ty_of (VStr (c :: t)) = if (c =? 34)%N then TyString else if (c =? 58)%N then TyTag else if is_digit c then TyNumber else TyString.
   Proof.
-    intros c t H. unfold ty_of. destruct c as [|p]; [reflexivity|].
-    do 6 (destruct p as [p|p|]; try reflexivity); cbn in H; discriminate.
+    intros c t. unfold ty_of. destruct c as [|p]; [reflexivity|].
+    do 6 (destruct p as [p|p|]; try reflexivity).
   Qed.
 
   Lemma ty_of_pr : forall p, arg_pr p -> ty_of (snd p) = fst p.
   Proof.
     intros [[] [s0|items|n0|ns0]] H; cbn in H; try contradiction; cbn [fst snd]; try reflexivity.
     - destruct (tag_ok_shape s0 H) as (r & -> & _). reflexivity.
-    - destruct (exact_string_shape s0 H) as (body & -> & _). reflexivity.
+    - destruct H as [H|(_ & Hm)].
+      + destruct (exact_string_shape s0 H) as (body & -> & _). reflexivity.
+      + destruct (scan_multiline_some _ _ (Hm [] (or_introl eq_refl))) as (t & Hv). rewrite app_nil_r in Hv. subst s0. reflexivity.
     - destruct H as (ds & q & -> & Hne & Hd & _). destruct ds as [|c ds]; [congruence|].
-      cbn [forallb] in Hd. apply andb_true_iff in Hd as [Hc _]. apply ty_of_digit. exact Hc.
+      cbn [forallb] in Hd. apply andb_true_iff in Hd as [Hc _]. cbn [app]. rewrite ty_of_cons, Hc.
+      destruct (digit_facts c Hc) as (_ & _ & _ & _ & _ & _ & _ & _ & _ & _ & E34 & E58 & _). rewrite E34, E58. reflexivity.
   Qed.
 
   Definition canon_slot (am em : list (bytes * aval)) (s : argdef) : list argument :=
@@ -493,6 +502,7 @@ Section Canon.
     extype_has TyTag (ex_type ex) = false /\
     (extype_has TyNumber (ex_type ex) = true -> has_string_ex (ex_type ex) = false).
   Hypothesis TC2 : forall r, In r reqs -> atype_mem TyNumber (a_type r) = true -> has_string_list (a_type r) = false.
+  Hypothesis TC3 : forall r, In r reqs -> atype_mem TyStringList (a_type r) = true -> atype_mem TyString (a_type r) = true.
 
   Lemma find_def_in : forall l s, NoDup (map a_name l) -> In s l -> find_def l (a_name s) = Some s.
   Proof.
@@ -529,7 +539,7 @@ Section Canon.
     unfold param_ok in Hpo. cbn [fst] in Hpo. apply andb_true_iff in Hpo as [Hty _].
     destruct t; destruct v as [x|l|n0|ns0]; cbn in Hpr; try contradiction.
     - congruence.
-    - apply va_string. exact Hpr.
+    - destruct Hpr as [Hpr|(Hk & Hm)]; [apply va_string; exact Hpr|apply va_ml; [exact Hk|exact Hm|exact Hty]].
     - destruct Hpr as (Hne & Hall). apply va_list; [exact Hne|exact Hall|apply plain_opt; exact Hs].
     - apply va_number; [exact Hpr|apply Hnum; exact Hty].
   Qed.
@@ -593,7 +603,10 @@ Section Canon.
     - apply (sa_pos d am em r rs rargs v (t, v) Etag Hget); [|exact IH].
       destruct t; destruct v as [s0|l|n0|ns0]; cbn in Hpr; try contradiction.
       + exfalso. unfold is_valid_type in Hvt. rewrite Etag in Hvt. cbn in Hvt. discriminate.
-      + apply va_string. exact Hpr.
+      + destruct Hpr as [Hpr|(Hk & Hm)]; [apply va_string; exact Hpr|apply va_ml; [exact Hk|exact Hm|]].
+        unfold has_string_list. unfold is_valid_type in Hvt. cbn [atype_eqb] in Hvt.
+        destruct (atype_mem TyString (a_type r)) eqn:Es; [reflexivity|]. cbn [orb] in Hvt.
+        change (atype_eqb TyString TyString) with true in Hvt. cbn [andb] in Hvt. rewrite (TC3 r Hin Hvt) in Es. discriminate.
       + destruct Hpr as (Hne & Hall). apply va_list; [exact Hne|exact Hall|apply plain_req; exact Hin].
       + apply va_number; [exact Hpr|]. apply (TC2 r Hin). unfold is_valid_type in Hvt. cbn in Hvt. rewrite orb_false_r in Hvt. exact Hvt.
   Qed.
@@ -689,7 +702,9 @@ Definition extra_sep (a : argdef) : bool :=
   | None => true
   end.
 
-Definition type_sep (a : argdef) : bool := negb (atype_mem TyNumber (a_type a)) || negb (has_string_list (a_type a)).
+Definition type_sep (a : argdef) : bool :=
+  (negb (atype_mem TyNumber (a_type a)) || negb (has_string_list (a_type a)))
+  && (negb (atype_mem TyStringList (a_type a)) || atype_mem TyString (a_type a)).
 
 Definition def_ok (d : cmddef) : bool :=
   nodupb (map a_name (d_args d)) && forallb extra_sep (d_args d) && forallb type_sep (d_args d) && ident_ok (d_name d).
@@ -741,12 +756,16 @@ Proof.
       apply negb_true_iff in B. exact B. }
     assert (TC2 : forall r, In r reqs -> atype_mem TyNumber (a_type r) = true -> has_string_list (a_type r) = false).
     { intros r Hr X. match goal with K : forallb type_sep (d_args d) = true |- _ => rewrite forallb_forall in K; pose proof (K r) as Kr end.
-      rewrite Hargs in Kr. specialize (Kr (in_or_app _ _ _ (or_intror Hr))). unfold type_sep in Kr. rewrite X in Kr. cbn in Kr.
-      apply negb_true_iff in Kr. exact Kr. }
+      rewrite Hargs in Kr. specialize (Kr (in_or_app _ _ _ (or_intror Hr))). unfold type_sep in Kr. apply andb_true_iff in Kr as [Kr _].
+      rewrite X in Kr. cbn in Kr. apply negb_true_iff in Kr. exact Kr. }
+    assert (TC3 : forall r, In r reqs -> atype_mem TyStringList (a_type r) = true -> atype_mem TyString (a_type r) = true).
+    { intros r Hr X. match goal with K : forallb type_sep (d_args d) = true |- _ => rewrite forallb_forall in K; pose proof (K r) as Kr end.
+      rewrite Hargs in Kr. specialize (Kr (in_or_app _ _ _ (or_intror Hr))). unfold type_sep in Kr. apply andb_true_iff in Kr as [_ Kr].
+      rewrite X in Kr. cbn in Kr. exact Kr. }
     assert (Hl : forall xs, legal d L xs = legal_opt (length xs) opts reqs xs L [] []).
     { intro xs. unfold legal. rewrite Ed, Hos, Hrs. reflexivity. }
     rewrite Hl in H.
-    destruct (legal_opt_canonical d opts reqs L Hargs Hopts Hreqs Hnd TC1 TC2 args am em Hpr H)
+    destruct (legal_opt_canonical d opts reqs L Hargs Hopts Hreqs Hnd TC1 TC2 TC3 args am em Hpr H)
       as (cargs & am' & em' & A & B & C & D & E).
     exists cargs, am', em'. rewrite Hl. rewrite <- Ed, Hargs. auto.
 Qed.
